@@ -11,20 +11,25 @@ import (
 	"encoding/json"
 	"errors"
 	"fmt"
+	"io"
 	"net/http"
 	"net/http/httptest"
 	"net/url"
+	"os"
+	"path/filepath"
 	"sort"
 	"strings"
 	"sync"
 	"sync/atomic"
 	"time"
 
+	jose "github.com/go-jose/go-jose/v4"
 	"github.com/rs/cors"
 	"golang.org/x/oauth2"
 	"golang.org/x/text/language"
 
 	"github.com/zitadel/oidc/v3/pkg/client"
+	"github.com/zitadel/oidc/v3/pkg/client/profile"
 	"github.com/zitadel/oidc/v3/pkg/client/rp"
 	"github.com/zitadel/oidc/v3/pkg/client/rs"
 	"github.com/zitadel/oidc/v3/pkg/client/tokenexchange"
@@ -48,7 +53,7 @@ type Transport struct {
 	mu    sync.RWMutex
 	hosts map[string]http.Handler
 	// Redirect mode: every request without the marker is answered 302 to the same
-	// URL plus the marker; the marked request is served. Lets a probe observe
+	// URL plus the marker; the marked request gets a canned 400. Lets a probe observe
 	// whether a client follows redirects (2 requests) or not (1 request).
 	Redirect atomic.Bool
 	Count    atomic.Int64
@@ -58,7 +63,37 @@ var Net = &Transport{hosts: map[string]http.Handler{}}
 
 // Install makes Net the process-wide default transport (once, before the
 // pristine snapshot is taken; http.DefaultTransport is not library state).
-func Install() { http.DefaultTransport = Net }
+func Install() {
+	http.DefaultTransport = Net
+	writeKeyFiles()
+}
+
+// Key files (the JSON format of client.ConfigFromKeyFile) for the constructors that read
+// a path: one for the application "jwt" (key jk1) and one for the service user "svc" (sk1).
+var keyDir = filepath.Join(os.TempDir(), "verif-c20-keyfiles")
+
+func keyFileData(kind string) []byte {
+	m := map[string]string{"type": "application", "keyId": "jk1", "key": string(keys.Get("rsa2").PEM), "clientId": JWTClient}
+	if kind == "svc" {
+		m = map[string]string{"type": "serviceaccount", "keyId": "sk1", "key": string(keys.Get("rsa3").PEM), "userId": SvcID}
+	}
+	b, _ := json.Marshal(m)
+	return b
+}
+
+func keyFilePath(kind string) string { return filepath.Join(keyDir, kind+".json") }
+
+func writeKeyFiles() {
+	must(os.MkdirAll(keyDir, 0o755))
+	for _, k := range []string{"app", "svc"} {
+		if b, err := os.ReadFile(keyFilePath(k)); err == nil && string(b) == string(keyFileData(k)) {
+			continue
+		}
+		tmp := fmt.Sprintf("%s.%d", keyFilePath(k), os.Getpid())
+		must(os.WriteFile(tmp, keyFileData(k), 0o600))
+		must(os.Rename(tmp, keyFilePath(k)))
+	}
+}
 
 func (t *Transport) Reset() {
 	t.mu.Lock()
@@ -91,6 +126,16 @@ func (t *Transport) RoundTrip(req *http.Request) (*http.Response, error) {
 		}
 		return &http.Response{StatusCode: 302, Status: "302 Found", Proto: "HTTP/1.1", ProtoMajor: 1, ProtoMinor: 1,
 			Header: http.Header{"Location": {u.String()}}, Body: http.NoBody, Request: req}, nil
+	}
+	if t.Redirect.Load() {
+		// the marked request of a redirect probe: the probe only counts requests, so the answer is
+		// canned (no provider work; every probed call treats a 400 as an error and does not retry)
+		if req.Body != nil {
+			req.Body.Close()
+		}
+		return &http.Response{StatusCode: 400, Status: "400 Bad Request", Proto: "HTTP/1.1", ProtoMajor: 1, ProtoMinor: 1,
+			Header: http.Header{"Content-Type": {"application/json"}}, Request: req,
+			Body: io.NopCloser(strings.NewReader(`{"error":"invalid_request","error_description":"c20 redirect probe"}`))}, nil
 	}
 	t.mu.RLock()
 	h := t.hosts[req.URL.Host]
@@ -126,16 +171,21 @@ func AllowRedirects(req *http.Request, via []*http.Request) error {
 // world
 
 const (
-	Scopes    = "openid profile email offline_access"
-	WebID     = "web"
-	WebSecret = "secret-web"
-	Redirect  = "https://rp.example/cb"
+	Scopes     = "openid profile email offline_access"
+	WebID      = "web"
+	WebSecret  = "secret-web"
+	Redirect   = "https://rp.example/cb"
+	JWTClient  = "jwt" // private_key_jwt client: keys jk1 = rsa2 (key-file constructors) and jk2 = p256b (base instances)
+	SvcID      = "svc" // service user: client_credentials (secret) and jwt-bearer grant, keys sk1 = rsa3 (key file) and sk2 = p256c
+	SvcSecret  = "secret-svc"
+	LegacyHost = "legacy.op.example" // L0 on the in-process network (same issuer and storage as P0)
+	SigKID     = "sig-1"             // key id of the signing key of rig.DefaultConfig (ES256, p256a)
 )
 
 // Inst is one library instance living in the world.
 type Inst struct {
 	Name    string // P0, L0, RP0, ... or the constructor op that made it, numbered
-	Kind    string // provider | legacy | rp | rs | te
+	Kind    string // provider | legacy | rp | rs | te | ts (profile.TokenSource) | ks (key set + verifier)
 	Ref     string // key of the fresh-history reference behaviour (base:<name> or constructor op)
 	Obj     any
 	Handler http.Handler // provider / legacy
@@ -143,6 +193,14 @@ type Inst struct {
 	RP      rp.RelyingParty
 	RS      rs.ResourceServer
 	TE      tokenexchange.TokenExchanger
+	TS      profile.TokenSource
+	V       *rp.IDTokenVerifier // kind ks: a stand-alone verifier over a stand-alone remote key set
+	// provider / legacy: the instance's own storage and the paths the application configured
+	Core                          *refstore.Core
+	AuthPath, TokenPath, KeysPath string
+	// rp with browser-facing handlers: one long-lived closure each, shared by all requests like
+	// a handler mounted on a mux
+	StartH, CbH http.Handler
 }
 
 // Supplied is a caller-supplied (or storage-owned) object under the frame condition.
@@ -163,10 +221,9 @@ type World struct {
 	Ctx      context.Context
 	// PollInterval of the device flow: fake time inside a bubble; real time in the race run
 	PollInterval time.Duration
-	Hooks *Hooks
-	// long-lived HTTP handlers of the browser-facing RP (RP2: cookie handler + PKCE): one
-	// closure each, shared by all requests like a handler mounted on a mux
-	StartH, CbH http.Handler
+	Hooks        *Hooks
+	// one signer per key, shared by every goroutine like the signer an application holds
+	AppSigner, SvcSigner jose.Signer
 }
 
 // Hooks let the checker observe objects at the moment they come into existence
@@ -217,7 +274,8 @@ func must(err error) {
 
 func storeConfig() *refstore.Config {
 	cfg := rig.DefaultConfig()
-	cfg.ShareDevState = true // the storage hands out its own *DeviceAuthorizationState, like the example storage
+	cfg.ServiceUsers[SvcID].Keys["sk2"] = rig.PubJWK(keys.Get("p256c"), "sk2") // ES256: RSA signing would dominate the run time
+	cfg.ShareDevState = true                                                   // the storage hands out its own *DeviceAuthorizationState, like the example storage
 	return cfg
 }
 
@@ -231,19 +289,32 @@ func Build(h *Hooks) *World {
 	w.R = rig.MustNew(rig.Opts{Cfg: storeConfig(), OP: w.OPCfg, Endpoints: w.LegEps})
 	w.R.Core.NoLog = true
 	Net.Register(rig.Host, w.R.H[0])
+	Net.Register(LegacyHost, w.R.H[1])
 	w.CS = &http.Client{Transport: Net, CheckRedirect: AllowRedirects} // the caller chose: own redirect policy, no timeout
+	var err error
+	w.AppSigner, err = client.NewSignerFromPrivateKeyByte(keys.Get("p256b").PEM, "jk2")
+	must(err)
+	w.SvcSigner, err = client.NewSignerFromPrivateKeyByte(keys.Get("p256c").PEM, "sk2")
+	must(err)
 	w.supply("op.Config(P0)", "op.Config", w.OPCfg)
 	w.supply("op.Endpoints(L0)", "op.Endpoints", w.LegEps)
 	w.supply("http.Client(CS)", "http.Client", w.CS)
-	w.add(&Inst{Name: "P0", Kind: "provider", Ref: "base:P0", Obj: w.R.Provider, Handler: w.R.H[0], Issuer: rig.Issuer})
-	w.add(&Inst{Name: "L0", Kind: "legacy", Ref: "base:L0", Obj: w.R.H[1], Handler: w.R.H[1], Issuer: rig.Issuer})
+	w.add(&Inst{Name: "P0", Kind: "provider", Ref: "base:P0", Obj: w.R.Provider, Handler: w.R.H[0], Issuer: rig.Issuer, Core: w.R.Core,
+		AuthPath: "/authorize", TokenPath: "/oauth/token", KeysPath: "/keys"})
+	w.add(&Inst{Name: "L0", Kind: "legacy", Ref: "base:L0", Obj: w.R.H[1], Handler: w.R.H[1], Issuer: rig.Issuer, Core: w.R.Core,
+		AuthPath: "/authorize", TokenPath: "/oauth/token", KeysPath: "/keys"})
 	w.newRP("RP0", "base:RP0", true, false)
 	w.newRP("RP1", "base:RP1", true, true)
 	w.newRPHandlers()
+	w.newRPVariants()
 	w.newRS("RS0", "base:RS0", "cc", false)
 	w.newRS("RS1", "base:RS1", "cc", true)
+	w.newRS("RS2", "base:RS2", "jwt", false)
 	w.newTE("TE0", "base:TE0", "cc", false)
 	w.newTE("TE1", "base:TE1", "cc", true)
+	w.newTE("TE2", "base:TE2", "jwt+legacy", false)
+	w.newTS("TS0", "base:TS0", "plain")
+	w.newKS("KS0", "base:KS0", false)
 	return w
 }
 
@@ -267,21 +338,28 @@ func (w *World) newRP(name, ref string, oidcRP, supplied bool) {
 	w.add(&Inst{Name: name, Kind: "rp", Ref: ref, Obj: r, RP: r, Issuer: rig.Issuer})
 }
 
+func cookieHandler(secure bool) *httphelper.CookieHandler {
+	var o []httphelper.CookieHandlerOpt
+	if !secure {
+		o = append(o, httphelper.WithUnsecure())
+	}
+	return httphelper.NewCookieHandler([]byte("0123456789abcdef0123456789abcdef"), []byte("0123456789abcdef"), o...)
+}
+
 // newRPHandlers adds RP2 (cookie handler, PKCE, custom URL parameters) and mounts its two
 // browser-facing handlers once.
 func (w *World) newRPHandlers() {
-	ch := httphelper.NewCookieHandler([]byte("0123456789abcdef0123456789abcdef"), []byte("0123456789abcdef"), httphelper.WithUnsecure())
+	ch := cookieHandler(false)
 	w.supply("CookieHandler(RP2)", "httphelper.CookieHandler", ch)
 	r, err := rp.NewRelyingPartyOIDC(w.Ctx, rig.Issuer, WebID, WebSecret, Redirect, strings.Fields(Scopes), rp.WithPKCE(ch), rp.WithLogger(rig.Discard),
 		rp.WithUnauthorizedHandler(func(rw http.ResponseWriter, _ *http.Request, desc string, _ string) {
 			http.Error(rw, "unauthorized: "+desc, http.StatusUnauthorized)
 		}))
 	must(err)
-	w.add(&Inst{Name: "RP2", Kind: "rp", Ref: "base:RP2", Obj: r, RP: r, Issuer: rig.Issuer})
 	var ctr atomic.Int64 // the application's state function: its own business, synchronised
-	w.StartH = rp.AuthURLHandler(func() string { return fmt.Sprintf("state-%d", ctr.Add(1)) }, r,
+	startH := rp.AuthURLHandler(func() string { return fmt.Sprintf("state-%d", ctr.Add(1)) }, r,
 		rp.WithURLParam("audience", "https://api.example"), rp.WithPromptURLParam("login"))
-	w.CbH = rp.CodeExchangeHandler(func(rw http.ResponseWriter, _ *http.Request, tk *oidc.Tokens[*oidc.IDTokenClaims], state string, _ rp.RelyingParty) {
+	cbH := rp.CodeExchangeHandler(func(rw http.ResponseWriter, _ *http.Request, tk *oidc.Tokens[*oidc.IDTokenClaims], state string, _ rp.RelyingParty) {
 		if tk == nil || tk.IDTokenClaims == nil || tk.IDTokenClaims.Subject != "u1" {
 			http.Error(rw, "claims", http.StatusInternalServerError)
 			return
@@ -289,40 +367,105 @@ func (w *World) newRPHandlers() {
 		rw.Header().Set("X-State", state)
 		rw.WriteHeader(http.StatusOK)
 	}, r)
+	w.add(&Inst{Name: "RP2", Kind: "rp", Ref: "base:RP2", Obj: r, RP: r, Issuer: rig.Issuer, StartH: startH, CbH: cbH})
 }
 
-// browserLogin runs one complete browser login through RP2's handlers and P0:
-// start (cookies + authorization URL), the provider's code flow with exactly the
-// parameters of that URL, callback with the cookies of this browser.
-func (w *World) browserLogin(onlyStart bool) string {
+// newRPVariants adds one relying party per remaining way of authenticating the client:
+//
+//	RP3  private_key_jwt: client "jwt", rp.WithJWTProfile (the library signs an assertion per
+//	     request in CodeExchangeHandler and DeviceAuthorization), cookie handler without PKCE,
+//	     credentials in the body; its callback handler is rp.UserinfoCallback
+//	RP4  client_secret_post: client "post", oauth2.AuthStyleInParams
+//	RP5  client_secret_basic, forced: service user "svc", oauth2.AuthStyleInHeader (client_credentials succeeds)
+//
+// (RP0..RP2 use the default oauth2.AuthStyleAutoDetect.)
+func (w *World) newRPVariants() {
+	ch := cookieHandler(false)
+	w.supply("CookieHandler(RP3)", "httphelper.CookieHandler", ch)
+	r, err := rp.NewRelyingPartyOIDC(w.Ctx, rig.Issuer, JWTClient, "", Redirect, strings.Fields(Scopes), rp.WithCookieHandler(ch),
+		rp.WithJWTProfile(rp.SignerFromKeyAndKeyID(keys.Get("p256b").PEM, "jk2")), rp.WithAuthStyle(oauth2.AuthStyleInParams), rp.WithLogger(rig.Discard))
+	must(err)
+	var ctr atomic.Int64
+	startH := rp.AuthURLHandler(func() string { return fmt.Sprintf("state3-%d", ctr.Add(1)) }, r)
+	cbH := rp.CodeExchangeHandler(rp.UserinfoCallback[*oidc.IDTokenClaims, *oidc.UserInfo](func(rw http.ResponseWriter, _ *http.Request, tk *oidc.Tokens[*oidc.IDTokenClaims], state string, _ rp.RelyingParty, info *oidc.UserInfo) {
+		if tk == nil || tk.IDTokenClaims == nil || info == nil || info.Subject != "u1" {
+			http.Error(rw, "claims", http.StatusInternalServerError)
+			return
+		}
+		rw.Header().Set("X-State", state)
+		rw.WriteHeader(http.StatusOK)
+	}), r)
+	w.add(&Inst{Name: "RP3", Kind: "rp", Ref: "base:RP3", Obj: r, RP: r, Issuer: rig.Issuer, StartH: startH, CbH: cbH})
+
+	r, err = rp.NewRelyingPartyOIDC(w.Ctx, rig.Issuer, "post", "secret-post", Redirect, strings.Fields(Scopes), rp.WithAuthStyle(oauth2.AuthStyleInParams))
+	must(err)
+	w.add(&Inst{Name: "RP4", Kind: "rp", Ref: "base:RP4", Obj: r, RP: r, Issuer: rig.Issuer})
+
+	r, err = rp.NewRelyingPartyOIDC(w.Ctx, rig.Issuer, SvcID, SvcSecret, Redirect, []string{"openid"}, rp.WithAuthStyle(oauth2.AuthStyleInHeader))
+	must(err)
+	w.add(&Inst{Name: "RP5", Kind: "rp", Ref: "base:RP5", Obj: r, RP: r, Issuer: rig.Issuer})
+}
+
+// loginStart is the first half of a browser login through the handlers of relying party n:
+// the start handler sets the cookies and redirects to the authorization URL; the provider's
+// code flow runs with exactly the parameters of that URL.
+type loginState struct {
+	err     string
+	state   string
+	cookies string
+	code    string
+}
+
+func (w *World) loginStart(n, clientID string, withCode bool) loginState {
+	in := w.Inst(n)
 	rec := httptest.NewRecorder()
-	w.StartH.ServeHTTP(rec, httptest.NewRequest("GET", "https://rp.example/login", nil))
+	in.StartH.ServeHTTP(rec, httptest.NewRequest("GET", "https://rp.example/login", nil))
 	loc, err := url.Parse(rec.Header().Get("Location"))
 	if rec.Code < 300 || rec.Code >= 400 || err != nil {
-		return fmt.Sprintf("refused:start %d", rec.Code)
+		return loginState{err: fmt.Sprintf("refused:start %d", rec.Code)}
 	}
 	q := loc.Query()
 	var ck []string
 	for _, c := range (&http.Response{Header: rec.Header()}).Cookies() {
 		ck = append(ck, c.Name+"="+c.Value)
 	}
-	if q.Get("state") == "" || q.Get("code_challenge") == "" || len(ck) != 2 || q.Get("audience") != "https://api.example" {
-		return "refused:authorization URL " + loc.RawQuery
+	wantCookies := 1
+	if in.RP.IsPKCE() {
+		wantCookies = 2
 	}
-	if onlyStart {
-		return "ok"
+	if q.Get("state") == "" || (q.Get("code_challenge") != "") != in.RP.IsPKCE() || len(ck) != wantCookies || q.Get("client_id") != clientID {
+		return loginState{err: "refused:authorization URL " + loc.RawQuery}
 	}
-	code, last := w.R.CodeFlow(0, WebID, "u1", Scopes, url.Values{"state": q["state"], "code_challenge": q["code_challenge"],
-		"code_challenge_method": q["code_challenge_method"], "nonce": nil})
+	if n == "RP2" && q.Get("audience") != "https://api.example" {
+		return loginState{err: "refused:authorization URL lacks the static parameter " + loc.RawQuery}
+	}
+	ls := loginState{state: q.Get("state"), cookies: strings.Join(ck, "; ")}
+	if !withCode {
+		return ls
+	}
+	extra := url.Values{"state": q["state"], "nonce": nil}
+	if in.RP.IsPKCE() {
+		extra["code_challenge"], extra["code_challenge_method"] = q["code_challenge"], q["code_challenge_method"]
+	}
+	code, last := w.R.CodeFlow(0, clientID, "u1", Scopes, extra)
 	if code == "" {
-		return fmt.Sprintf("refused:code flow %d", last.Status)
+		return loginState{err: fmt.Sprintf("refused:code flow %d", last.Status)}
 	}
-	req := httptest.NewRequest("GET", Redirect+"?"+url.Values{"code": {code}, "state": q["state"]}.Encode(), nil)
-	req.Header.Set("Cookie", strings.Join(ck, "; "))
-	rec2 := httptest.NewRecorder()
-	w.CbH.ServeHTTP(rec2, req)
-	if rec2.Code != http.StatusOK || rec2.Header().Get("X-State") != q.Get("state") {
-		return fmt.Sprintf("refused:callback %d %s", rec2.Code, strings.TrimSpace(rec2.Body.String()))
+	ls.code = code
+	return ls
+}
+
+// loginCallback is the second half: the callback with the cookies of this browser.
+func (w *World) loginCallback(n string, ls loginState) string {
+	if ls.err != "" {
+		return ls.err
+	}
+	req := httptest.NewRequest("GET", Redirect+"?"+url.Values{"code": {ls.code}, "state": {ls.state}}.Encode(), nil)
+	req.Header.Set("Cookie", ls.cookies)
+	rec := httptest.NewRecorder()
+	w.Inst(n).CbH.ServeHTTP(rec, req)
+	if rec.Code != http.StatusOK || rec.Header().Get("X-State") != ls.state {
+		return fmt.Sprintf("refused:callback %d %s", rec.Code, strings.TrimSpace(rec.Body.String()))
 	}
 	return "ok"
 }
@@ -334,9 +477,15 @@ func (w *World) newRS(name, ref, mode string, supplied bool) {
 	}
 	var r rs.ResourceServer
 	var err error
-	if mode == "jwt" {
-		r, err = rs.NewResourceServerJWTProfile(w.Ctx, rig.Issuer, "jwt", "jk1", keys.Get("rsa2").PEM, opts...)
-	} else {
+	switch mode {
+	case "jwt":
+		r, err = rs.NewResourceServerJWTProfile(w.Ctx, rig.Issuer, JWTClient, "jk2", keys.Get("p256b").PEM, opts...)
+	case "keyfile":
+		r, err = rs.NewResourceServerFromKeyFile(w.Ctx, rig.Issuer, keyFilePath("app"), opts...)
+	case "static": // no discovery
+		opts = append(opts, rs.WithStaticEndpoints(rig.Issuer+"/oauth/token", rig.Issuer+"/oauth/introspect"))
+		r, err = rs.NewResourceServerClientCredentials(w.Ctx, rig.Issuer, WebID, WebSecret, opts...)
+	default:
 		r, err = rs.NewResourceServerClientCredentials(w.Ctx, rig.Issuer, WebID, WebSecret, opts...)
 	}
 	must(err)
@@ -350,49 +499,126 @@ func (w *World) newTE(name, ref, mode string, supplied bool) {
 	}
 	var t tokenexchange.TokenExchanger
 	var err error
-	if mode == "none" {
+	switch mode {
+	case "none":
 		t, err = tokenexchange.NewTokenExchanger(w.Ctx, rig.Issuer, opts...)
-	} else {
+	case "static": // no discovery
+		opts = append(opts, tokenexchange.WithStaticTokenEndpoint(rig.Issuer, rig.Issuer+"/oauth/token"))
+		t, err = tokenexchange.NewTokenExchanger(w.Ctx, rig.Issuer, opts...)
+	case "jwt", "jwt+legacy":
+		// the application's signer is handed to the constructor: one signer per exchanger
+		var signer jose.Signer
+		signer, err = client.NewSignerFromPrivateKeyByte(keys.Get("p256b").PEM, "jk2")
+		must(err)
+		if mode == "jwt+legacy" {
+			// only the LegacyServer's token-exchange handler accepts a client assertion (the Provider's takes
+			// client_id/client_secret only): this exchanger talks to L0, which shares P0's issuer and storage
+			opts = append(opts, tokenexchange.WithStaticTokenEndpoint(rig.Issuer, "https://"+LegacyHost+"/oauth/token"))
+		}
+		t, err = tokenexchange.NewTokenExchangerJWTProfile(w.Ctx, rig.Issuer, JWTClient, signer, opts...)
+	default:
 		t, err = tokenexchange.NewTokenExchangerClientCredentials(w.Ctx, rig.Issuer, WebID, WebSecret, opts...)
 	}
 	must(err)
 	w.add(&Inst{Name: name, Kind: "te", Ref: ref, Obj: t, TE: t, Issuer: rig.Issuer})
 }
 
-// newProvider constructs one more provider over its own fresh storage.
-func (w *World) newProvider(ref, host string, opts ...op.Option) {
-	w.newProviderCfg(ref, host, nil, false, opts...)
+// newTS constructs a JWT-profile token source of the service user.
+func (w *World) newTS(name, ref, mode string) {
+	var t profile.TokenSource
+	var err error
+	scopes := []string{"openid"}
+	switch mode {
+	case "data+client": // key file contents, caller-supplied client
+		t, err = profile.NewJWTProfileTokenSourceFromKeyFileData(w.Ctx, rig.Issuer, keyFileData("svc"), scopes, profile.WithHTTPClient(w.CS))
+	case "file+static": // key file path, no discovery
+		t, err = profile.NewJWTProfileTokenSourceFromKeyFile(w.Ctx, rig.Issuer, keyFilePath("svc"), scopes,
+			profile.WithStaticTokenEndpoint(rig.Issuer, rig.Issuer+"/oauth/token"))
+	default:
+		t, err = profile.NewJWTProfileTokenSource(w.Ctx, rig.Issuer, SvcID, "sk2", keys.Get("p256c").PEM, scopes)
+	}
+	must(err)
+	w.add(&Inst{Name: name, Kind: "ts", Ref: ref, Obj: t, TS: t, Issuer: rig.Issuer})
 }
 
-// newProviderCfg is newProvider with a configuration variant (mut edits the default
-// config before the constructor sees it); legacy additionally mounts a LegacyServer
-// over the new provider as an instance of its own.
-func (w *World) newProviderCfg(ref, host string, mut func(*op.Config), legacy bool, opts ...op.Option) {
-	core := refstore.NewCore(storeConfig())
+// newKS constructs a stand-alone remote key set and an ID token verifier over it.
+func (w *World) newKS(name, ref string, variant bool) {
+	var ks oidc.KeySet
+	var v *rp.IDTokenVerifier
+	if variant {
+		ks = rp.NewRemoteKeySet(w.CS, rig.Issuer+"/keys", rp.SkipRemoteCheck())
+		v = rp.NewIDTokenVerifier(rig.Issuer, WebID, ks, rp.WithIssuedAtOffset(5*time.Second), rp.WithIssuedAtMaxAge(time.Hour),
+			rp.WithNonce(func(context.Context) string { return "n-1" }), rp.WithACRVerifier(func(string) error { return nil }),
+			rp.WithAuthTimeMaxAge(time.Hour), rp.WithSupportedSigningAlgorithms("ES256", "RS256"))
+	} else {
+		ks = rp.NewRemoteKeySet(httphelper.DefaultHTTPClient, rig.Issuer+"/keys")
+		v = rp.NewIDTokenVerifier(rig.Issuer, WebID, ks, rp.WithNonce(func(context.Context) string { return "n-1" }))
+	}
+	w.add(&Inst{Name: name, Kind: "ks", Ref: ref, Obj: v, V: v, Issuer: rig.Issuer})
+}
+
+// newProvider constructs one more provider over its own fresh storage.
+func (w *World) newProvider(ref, host string, opts ...op.Option) {
+	w.newProviderCfg(ref, host, provSpec{}, opts...)
+}
+
+// provSpec describes a provider variant: mut edits the default op.Config before the
+// constructor sees it; store edits the storage configuration (e.g. its signing key);
+// legacy additionally mounts a LegacyServer over the new provider as an instance of its
+// own; auth/token/keys are the paths the application configured (default when empty).
+type provSpec struct {
+	mut               func(*op.Config)
+	store             func(*refstore.Config)
+	legacy            bool
+	auth, token, keys string
+}
+
+func orDefault(s, d string) string {
+	if s == "" {
+		return d
+	}
+	return s
+}
+
+func (w *World) newProviderCfg(ref, host string, sp provSpec, opts ...op.Option) {
+	scfg := storeConfig()
+	if sp.store != nil {
+		sp.store(scfg)
+	}
+	core := refstore.NewCore(scfg)
 	core.NoLog = true
 	st := refstore.New(core, refstore.CapAll)
 	cfg := rig.DefaultOPConfig()
-	if mut != nil {
-		mut(cfg)
+	if sp.mut != nil {
+		sp.mut(cfg)
 	}
-	defer func() {
-		if !legacy {
-			return
-		}
-		p := w.Insts[len(w.Insts)-1].Obj.(*op.Provider)
-		eps := rig.CopyEndpoints()
-		w.n++
-		w.supply(fmt.Sprintf("op.Endpoints#%d", w.n), "op.Endpoints", &eps)
-		h := op.RegisterLegacyServer(op.NewLegacyServer(p, eps), op.AuthorizeCallbackHandler(p), op.WithFallbackLogger(rig.Discard))
-		w.add(&Inst{Kind: "legacy", Ref: ref + "/legacy", Obj: h, Handler: h, Issuer: "https://" + host})
-	}()
 	w.n++
 	w.supply(fmt.Sprintf("op.Config#%d", w.n), "op.Config", cfg)
 	all := append([]op.Option{op.WithLogger(rig.Discard)}, opts...)
 	p, err := op.NewProvider(cfg, st, op.StaticIssuer("https://"+host), all...)
 	must(err)
 	Net.Register(host, p)
-	w.add(&Inst{Kind: "provider", Ref: ref, Obj: p, Handler: p, Issuer: "https://" + host})
+	w.add(&Inst{Kind: "provider", Ref: ref, Obj: p, Handler: p, Issuer: "https://" + host, Core: core,
+		AuthPath: orDefault(sp.auth, "/authorize"), TokenPath: orDefault(sp.token, "/oauth/token"), KeysPath: orDefault(sp.keys, "/keys")})
+	if !sp.legacy {
+		return
+	}
+	eps := rig.CopyEndpoints()
+	w.n++
+	w.supply(fmt.Sprintf("op.Endpoints#%d", w.n), "op.Endpoints", &eps)
+	h := op.RegisterLegacyServer(op.NewLegacyServer(p, eps), op.AuthorizeCallbackHandler(p), op.WithFallbackLogger(rig.Discard))
+	w.add(&Inst{Kind: "legacy", Ref: ref + "/legacy", Obj: h, Handler: h, Issuer: "https://" + host, Core: core,
+		AuthPath: "/authorize", TokenPath: "/oauth/token", KeysPath: "/keys"})
+}
+
+// sameKID gives a storage a signing key with the SAME key id as every other storage of the
+// world ("sig-1") but other key material: two tenants that both call their key "sig-1".
+func sameKID(alg jose.SignatureAlgorithm, key string) func(*refstore.Config) {
+	return func(c *refstore.Config) {
+		k := keys.Get(key)
+		c.Sign = &refstore.SignKey{KID: SigKID, Alg: alg, Priv: k.PrivForJose()}
+		c.Published = []*refstore.PubKey{{KID: SigKID, Alg: alg, Usage: "sig", Pub: k.PubForJose()}}
+	}
 }
 
 // ---------------------------------------------------------------------------
@@ -401,16 +627,29 @@ func (w *World) newProviderCfg(ref, host string, mut func(*op.Config), legacy bo
 type toks struct{ access, refresh, id string }
 
 // tokens runs a code flow directly against a router of P0 (no client library involved).
-func (w *World) tokens(router int) toks {
-	code, last := w.R.CodeFlow(router, WebID, "u1", Scopes, nil)
+func (w *World) tokens(router int) toks { return w.tokensFor(router, WebID) }
+
+func (w *World) tokensFor(router int, clientID string) toks {
+	code, last := w.R.CodeFlow(router, clientID, "u1", Scopes, nil)
 	if code == "" {
 		panic(fmt.Sprintf("code flow failed: %d %s", last.Status, last.Body))
 	}
-	tr := w.R.ExchangeCode(router, WebID, code, nil)
+	var extra url.Values
+	if clientID == JWTClient {
+		extra = url.Values{"client_assertion": {w.assertion(JWTClient, w.AppSigner)}, "client_assertion_type": {oidc.ClientAssertionTypeJWTAssertion}}
+	}
+	tr := w.R.ExchangeCode(router, clientID, code, extra)
 	if tr.Status != 200 {
 		panic(fmt.Sprintf("code exchange failed: %d %s", tr.Status, tr.Body))
 	}
 	return toks{tr.Str("access_token"), tr.Str("refresh_token"), tr.Str("id_token")}
+}
+
+// assertion signs a client assertion / JWT-profile assertion with the library's helper.
+func (w *World) assertion(clientID string, signer jose.Signer) string {
+	a, err := client.SignedJWTProfileAssertion(clientID, []string{rig.Issuer}, time.Hour, signer)
+	must(err)
+	return a
 }
 
 func webAuth() map[string]string {
@@ -468,6 +707,102 @@ func (w *World) deviceFlow(router int) string {
 	return class(tr.Status, 200)
 }
 
+func (w *World) rpDeviceFlow(n string) string {
+	r := w.Inst(n).RP
+	da, err := rp.DeviceAuthorization(w.Ctx, []string{"openid", "profile"}, r, nil)
+	if err != nil {
+		return errClass(err)
+	}
+	w.harness(func() { err = w.R.Core.ApproveDevice(da.UserCode, "u1") })
+	if err != nil {
+		return errClass(err)
+	}
+	tr, err := rp.DeviceAccessToken(w.Ctx, da.DeviceCode, w.PollInterval, r)
+	if err == nil && tr.AccessToken == "" {
+		return "refused:no-token"
+	}
+	return errClass(err)
+}
+
+// issue runs one code flow of the JWT-access-token client "webjwt" against instance i (a
+// provider or a LegacyServer) through the paths the application configured for it and with
+// the instance's OWN storage, and returns the ID token and the (JWT) access token.
+func (w *World) issue(i *Inst) (idToken, accessToken, err string) {
+	host := strings.TrimPrefix(i.Issuer, "https://")
+	do := func(method, target string, form url.Values, auth string) *rig.Resp {
+		var req *http.Request
+		if method == "GET" {
+			req = httptest.NewRequest("GET", "https://"+host+target+"?"+form.Encode(), nil)
+		} else {
+			req = httptest.NewRequest("POST", "https://"+host+target, strings.NewReader(form.Encode()))
+			req.Header.Set("Content-Type", "application/x-www-form-urlencoded")
+		}
+		if auth != "" {
+			req.Header.Set("Authorization", auth)
+		}
+		return rig.Do(i.Handler, nil, req)
+	}
+	a := do("GET", i.AuthPath, url.Values{"client_id": {"webjwt"}, "redirect_uri": {Redirect}, "response_type": {"code"}, "scope": {"openid"}, "state": {"st"}, "nonce": {"n-1"}}, "")
+	loc := a.Location()
+	if a.Status/100 != 3 || loc == nil || loc.Query().Get("authRequestID") == "" {
+		return "", "", fmt.Sprintf("authorize %d", a.Status)
+	}
+	id := loc.Query().Get("authRequestID")
+	if e := i.Core.Login(id, "u1"); e != nil {
+		return "", "", "login " + e.Error()
+	}
+	cb := do("GET", i.AuthPath+"/callback", url.Values{"id": {id}}, "")
+	code := ""
+	if u := cb.Location(); u != nil {
+		code = u.Query().Get("code")
+	}
+	if code == "" {
+		return "", "", fmt.Sprintf("callback %d", cb.Status)
+	}
+	tr := do("POST", i.TokenPath, url.Values{"grant_type": {"authorization_code"}, "code": {code}, "redirect_uri": {Redirect}}, rig.Basic("webjwt", "secret-webjwt"))
+	if tr.Status != 200 || tr.Str("id_token") == "" || tr.Str("access_token") == "" {
+		return "", "", fmt.Sprintf("token %d", tr.Status)
+	}
+	return tr.Str("id_token"), tr.Str("access_token"), ""
+}
+
+// selfIssued is the behaviour probe "a token this instance issues verifies against THIS
+// instance's key endpoint and carries this instance's issuer".
+func (w *World) selfIssued(i *Inst) string {
+	idt, at, e := w.issue(i)
+	if e != "" {
+		return "not-issued:" + e
+	}
+	host := strings.TrimPrefix(i.Issuer, "https://")
+	kr := rig.Do(i.Handler, nil, httptest.NewRequest("GET", "https://"+host+i.KeysPath, nil))
+	var set jose.JSONWebKeySet
+	if kr.Status != 200 || json.Unmarshal(kr.Body, &set) != nil {
+		return fmt.Sprintf("no-keys:%d", kr.Status)
+	}
+	one := func(tok string) string {
+		jws, err := jose.ParseSigned(tok, []jose.SignatureAlgorithm{jose.ES256, jose.RS256, jose.ES384, jose.EdDSA, jose.PS256})
+		if err != nil || len(jws.Signatures) != 1 {
+			return "not-a-jws"
+		}
+		ks := set.Key(jws.Signatures[0].Header.KeyID)
+		if len(ks) != 1 {
+			return fmt.Sprintf("kid-matches-%d-published-keys", len(ks))
+		}
+		payload, err := jws.Verify(ks[0].Key)
+		if err != nil {
+			return "signature-does-not-verify-against-own-keys"
+		}
+		var c struct {
+			Iss string `json:"iss"`
+		}
+		if json.Unmarshal(payload, &c) != nil || c.Iss != i.Issuer {
+			return "verified,foreign-issuer"
+		}
+		return "verified,own-issuer"
+	}
+	return "id_token=" + one(idt) + " access_token=" + one(at)
+}
+
 // ---------------------------------------------------------------------------
 // the alphabet of operations
 
@@ -476,9 +811,35 @@ type Op struct {
 	Kind  string // ctor-provider | ctor-client | call-provider | call-client | getter
 	Entry string // library entry point named in violation signatures
 	Run   func(w *World) string
+	// Two-phase form of a client call (Run = Call(Prep)): Prep obtains the inputs from the
+	// provider (codes, tokens), Call is the library call itself. The race pass runs every
+	// Prep before the start barrier so that the library calls start at the same instant.
+	Prep func(w *World) any
+	Call func(w *World, in any) string
+	// Variant: a further variant of a constructor / call family whose principal member is
+	// in the core alphabet. The quick tier pairs variants with every core operation (both
+	// orders) but not with each other; the thorough tier takes the full product.
+	Variant bool
 }
 
+func two(name, entry string, prep func(w *World) any, call func(w *World, in any) string) Op {
+	return Op{Name: name, Kind: "call-client", Entry: entry, Prep: prep, Call: call,
+		Run: func(w *World) string { return call(w, prep(w)) }}
+}
+
+func prepTokens(clientID string) func(w *World) any {
+	return func(w *World) any { return w.tokensFor(0, clientID) }
+}
+
+func noPrep(*World) any { return nil }
+
 func ep(p string) *op.Endpoint { return op.NewEndpoint(p) }
+
+func allFlagsOff(c *op.Config) {
+	c.CodeMethodS256, c.AuthMethodPost, c.AuthMethodPrivateKeyJWT = false, false, false
+	c.GrantTypeRefreshToken, c.RequestObjectSupported = false, false
+	c.SupportedUILocales = nil
+}
 
 // CustomPaths are the paths the custom-endpoint constructors use.
 var CustomPaths = []string{"/custom/authorize", "/custom/token", "/custom/introspect", "/custom/userinfo", "/custom/revoke",
@@ -497,30 +858,33 @@ func OpByName(n string) *Op {
 
 func buildOps() []Op {
 	const customEntry = "op.NewProvider+WithCustom*Endpoint"
-	prov := func(name, entry, host string, opts func() []op.Option) Op {
+	provS := func(name, entry, host string, sp provSpec, opts func() []op.Option) Op {
 		return Op{Name: name, Kind: "ctor-provider", Entry: entry, Run: func(w *World) string {
 			var o []op.Option
 			if opts != nil {
 				o = opts()
 			}
-			w.newProvider(name, host, o...)
+			w.newProviderCfg(name, host, sp, o...)
 			return "ok"
 		}}
+	}
+	prov := func(name, entry, host string, opts func() []op.Option) Op {
+		return provS(name, entry, host, provSpec{}, opts)
 	}
 	one := func(f func(*op.Endpoint) op.Option, path string) func() []op.Option {
 		return func() []op.Option { return []op.Option{f(ep(path))} }
 	}
 	ops := []Op{
 		prov("op.NewProvider", "op.NewProvider", "op-default.example", nil),
-		prov("op.NewProvider+WithCustomAuthEndpoint", customEntry, "op-cauth.example", one(op.WithCustomAuthEndpoint, "custom/authorize")),
-		prov("op.NewProvider+WithCustomTokenEndpoint", customEntry, "op-ctoken.example", one(op.WithCustomTokenEndpoint, "custom/token")),
+		provS("op.NewProvider+WithCustomAuthEndpoint", customEntry, "op-cauth.example", provSpec{auth: "/custom/authorize"}, one(op.WithCustomAuthEndpoint, "custom/authorize")),
+		provS("op.NewProvider+WithCustomTokenEndpoint", customEntry, "op-ctoken.example", provSpec{token: "/custom/token"}, one(op.WithCustomTokenEndpoint, "custom/token")),
 		prov("op.NewProvider+WithCustomIntrospectionEndpoint", customEntry, "op-cintro.example", one(op.WithCustomIntrospectionEndpoint, "custom/introspect")),
 		prov("op.NewProvider+WithCustomUserinfoEndpoint", customEntry, "op-cui.example", one(op.WithCustomUserinfoEndpoint, "custom/userinfo")),
 		prov("op.NewProvider+WithCustomRevocationEndpoint", customEntry, "op-crev.example", one(op.WithCustomRevocationEndpoint, "custom/revoke")),
 		prov("op.NewProvider+WithCustomEndSessionEndpoint", customEntry, "op-cend.example", one(op.WithCustomEndSessionEndpoint, "custom/end_session")),
-		prov("op.NewProvider+WithCustomKeysEndpoint", customEntry, "op-ckeys.example", one(op.WithCustomKeysEndpoint, "custom/keys")),
+		provS("op.NewProvider+WithCustomKeysEndpoint", customEntry, "op-ckeys.example", provSpec{keys: "/custom/keys"}, one(op.WithCustomKeysEndpoint, "custom/keys")),
 		prov("op.NewProvider+WithCustomDeviceAuthorizationEndpoint", customEntry, "op-cdev.example", one(op.WithCustomDeviceAuthorizationEndpoint, "custom/device_authorization")),
-		prov("op.NewProvider+WithCustomEndpoints", customEntry, "op-call.example", func() []op.Option {
+		provS("op.NewProvider+WithCustomEndpoints", customEntry, "op-call.example", provSpec{auth: "/custom/authorize", token: "/custom/token", keys: "/custom/keys"}, func() []op.Option {
 			return []op.Option{op.WithCustomEndpoints(ep("custom/authorize"), ep("custom/token"), ep("custom/userinfo"), ep("custom/revoke"), ep("custom/end_session"), ep("custom/keys"))}
 		}),
 		{Name: "op.NewProvider+WithCORSOptions", Kind: "ctor-provider", Entry: "op.NewProvider+WithCORSOptions", Run: func(w *World) string {
@@ -541,29 +905,32 @@ func buildOps() []Op {
 		// configuration variants: the discovery helpers read the package-level default lists
 		// (scopes, claims, grant/response types, auth methods) under different flags
 		{Name: "op.NewProvider+Config(all-flags-off)", Kind: "ctor-provider", Entry: "op.NewProvider+Config(all-flags-off)", Run: func(w *World) string {
-			w.newProviderCfg("op.NewProvider+Config(all-flags-off)", "op-off.example", func(c *op.Config) {
-				c.CodeMethodS256, c.AuthMethodPost, c.AuthMethodPrivateKeyJWT = false, false, false
-				c.GrantTypeRefreshToken, c.RequestObjectSupported = false, false
-				c.SupportedUILocales = nil
-			}, false)
+			w.newProviderCfg("op.NewProvider+Config(all-flags-off)", "op-off.example", provSpec{mut: allFlagsOff})
 			return "ok"
 		}},
 		{Name: "op.NewProvider+Config(all-flags-off)+LegacyServer", Kind: "ctor-provider", Entry: "op.NewProvider+Config(all-flags-off)", Run: func(w *World) string {
-			w.newProviderCfg("op.NewProvider+Config(all-flags-off)+LegacyServer", "op-offl.example", func(c *op.Config) {
-				c.CodeMethodS256, c.AuthMethodPost, c.AuthMethodPrivateKeyJWT = false, false, false
-				c.GrantTypeRefreshToken, c.RequestObjectSupported = false, false
-				c.SupportedUILocales = nil
-			}, true)
+			w.newProviderCfg("op.NewProvider+Config(all-flags-off)+LegacyServer", "op-offl.example", provSpec{mut: allFlagsOff, legacy: true})
 			return "ok"
 		}},
 		{Name: "op.NewProvider+Config(custom-lists)", Kind: "ctor-provider", Entry: "op.NewProvider+Config(custom-lists)", Run: func(w *World) string {
-			w.newProviderCfg("op.NewProvider+Config(custom-lists)", "op-lists.example", func(c *op.Config) {
+			w.newProviderCfg("op.NewProvider+Config(custom-lists)", "op-lists.example", provSpec{legacy: true, mut: func(c *op.Config) {
 				c.GrantTypeRefreshToken = false
 				c.SupportedScopes = []string{"openid", "offline_access", "custom", "email"}
 				c.SupportedClaims = []string{"sub", "custom_claim"}
 				c.BackChannelLogoutSupported, c.BackChannelLogoutSessionSupported = true, true
 				c.SupportedUILocales = []language.Tag{language.German, language.English}
-			}, true)
+			}})
+			return "ok"
+		}},
+		// two tenants whose signing keys carry the SAME key id as every other storage of the world
+		// but other key material (and, second variant, another algorithm): anything the library
+		// memoises per key id / algorithm instead of per instance shows up in the self-issued-token probe
+		{Name: "op.NewProvider+Storage(same-kid,other-key)+LegacyServer", Kind: "ctor-provider", Entry: "op.NewProvider+Storage(same-kid)", Run: func(w *World) string {
+			w.newProviderCfg("op.NewProvider+Storage(same-kid,other-key)+LegacyServer", "op-kid.example", provSpec{legacy: true, store: sameKID(jose.ES256, "p256b")})
+			return "ok"
+		}},
+		{Name: "op.NewProvider+Storage(same-kid,other-alg)", Kind: "ctor-provider", Entry: "op.NewProvider+Storage(same-kid)", Variant: true, Run: func(w *World) string {
+			w.newProviderCfg("op.NewProvider+Storage(same-kid,other-alg)", "op-kidrs.example", provSpec{store: sameKID(jose.RS256, "rsa4")})
 			return "ok"
 		}},
 		{Name: "op.NewLegacyServer", Kind: "ctor-provider", Entry: "op.NewLegacyServer", Run: func(w *World) string {
@@ -571,7 +938,8 @@ func buildOps() []Op {
 			w.n++
 			w.supply(fmt.Sprintf("op.Endpoints#%d", w.n), "op.Endpoints", &eps)
 			h := op.RegisterLegacyServer(op.NewLegacyServer(w.R.Provider, eps), op.AuthorizeCallbackHandler(w.R.Provider), op.WithFallbackLogger(rig.Discard))
-			w.add(&Inst{Kind: "legacy", Ref: "op.NewLegacyServer", Obj: h, Handler: h, Issuer: rig.Issuer})
+			w.add(&Inst{Kind: "legacy", Ref: "op.NewLegacyServer", Obj: h, Handler: h, Issuer: rig.Issuer, Core: w.R.Core,
+				AuthPath: "/authorize", TokenPath: "/oauth/token", KeysPath: "/keys"})
 			return "ok"
 		}},
 		{Name: "rp.NewRelyingPartyOIDC", Kind: "ctor-client", Entry: "rp.NewRelyingPartyOIDC", Run: func(w *World) string {
@@ -622,6 +990,71 @@ func buildOps() []Op {
 		}},
 		{Name: "tokenexchange.NewTokenExchangerClientCredentials+WithHTTPClient", Kind: "ctor-client", Entry: "tokenexchange.NewTokenExchangerClientCredentials", Run: func(w *World) string {
 			w.newTE("", "tokenexchange.NewTokenExchangerClientCredentials+WithHTTPClient", "cc", true)
+			return "ok"
+		}},
+		// the remaining exported constructors of pkg/client/{rp,rs,tokenexchange,profile}
+		{Name: "tokenexchange.NewTokenExchangerJWTProfile", Kind: "ctor-client", Entry: "tokenexchange.NewTokenExchangerJWTProfile", Run: func(w *World) string {
+			w.newTE("", "tokenexchange.NewTokenExchangerJWTProfile", "jwt", false)
+			return "ok"
+		}},
+		{Name: "tokenexchange.NewTokenExchanger+WithStaticTokenEndpoint", Kind: "ctor-client", Entry: "tokenexchange.NewTokenExchanger", Variant: true, Run: func(w *World) string {
+			w.newTE("", "tokenexchange.NewTokenExchanger+WithStaticTokenEndpoint", "static", true)
+			return "ok"
+		}},
+		{Name: "profile.NewJWTProfileTokenSource", Kind: "ctor-client", Entry: "profile.NewJWTProfileTokenSource", Run: func(w *World) string {
+			w.newTS("", "profile.NewJWTProfileTokenSource", "plain")
+			return "ok"
+		}},
+		{Name: "profile.NewJWTProfileTokenSourceFromKeyFileData+WithHTTPClient", Kind: "ctor-client", Entry: "profile.NewJWTProfileTokenSource", Variant: true, Run: func(w *World) string {
+			w.newTS("", "profile.NewJWTProfileTokenSourceFromKeyFileData+WithHTTPClient", "data+client")
+			return "ok"
+		}},
+		{Name: "profile.NewJWTProfileTokenSourceFromKeyFile+WithStaticTokenEndpoint", Kind: "ctor-client", Entry: "profile.NewJWTProfileTokenSource", Variant: true, Run: func(w *World) string {
+			w.newTS("", "profile.NewJWTProfileTokenSourceFromKeyFile+WithStaticTokenEndpoint", "file+static")
+			return "ok"
+		}},
+		{Name: "rs.NewResourceServerFromKeyFile", Kind: "ctor-client", Entry: "rs.NewResourceServerJWTProfile", Variant: true, Run: func(w *World) string {
+			w.newRS("", "rs.NewResourceServerFromKeyFile", "keyfile", false)
+			return "ok"
+		}},
+		{Name: "rs.NewResourceServerClientCredentials+WithStaticEndpoints", Kind: "ctor-client", Entry: "rs.NewResourceServerClientCredentials", Variant: true, Run: func(w *World) string {
+			w.newRS("", "rs.NewResourceServerClientCredentials+WithStaticEndpoints", "static", true)
+			return "ok"
+		}},
+		{Name: "rp.NewRemoteKeySet+NewIDTokenVerifier", Kind: "ctor-client", Entry: "rp.NewRemoteKeySet+NewIDTokenVerifier", Run: func(w *World) string {
+			w.newKS("", "rp.NewRemoteKeySet+NewIDTokenVerifier", false)
+			return "ok"
+		}},
+		{Name: "rp.NewRemoteKeySet+NewIDTokenVerifier+all-options", Kind: "ctor-client", Entry: "rp.NewRemoteKeySet+NewIDTokenVerifier", Variant: true, Run: func(w *World) string {
+			w.newKS("", "rp.NewRemoteKeySet+NewIDTokenVerifier+all-options", true)
+			return "ok"
+		}},
+		{Name: "rp.NewRelyingPartyOIDC+other-options-2", Kind: "ctor-client", Entry: "rp.NewRelyingPartyOIDC", Variant: true, Run: func(w *World) string {
+			// the options the first "other-options" constructor does not use
+			ch := cookieHandler(true)
+			w.n++
+			w.supply(fmt.Sprintf("CookieHandler#%d", w.n), "httphelper.CookieHandler", ch)
+			r, err := rp.NewRelyingPartyOIDC(w.Ctx, rig.Issuer, JWTClient, "", Redirect, strings.Fields(Scopes),
+				rp.WithCustomDiscoveryUrl(rig.Issuer+"/.well-known/openid-configuration"), rp.WithCookieHandler(ch), rp.WithHTTPClient(w.CS),
+				rp.WithClientKey(keyFilePath("app")), rp.WithAuthStyle(oauth2.AuthStyleInParams),
+				rp.WithVerifierOpts(rp.WithIssuedAtMaxAge(time.Hour), rp.WithNonce(func(context.Context) string { return "n-1" }),
+					rp.WithACRVerifier(func(string) error { return nil }), rp.WithAuthTimeMaxAge(time.Hour), rp.WithSupportedSigningAlgorithms("ES256")))
+			must(err)
+			w.add(&Inst{Kind: "rp", Ref: "rp.NewRelyingPartyOIDC+other-options-2", Obj: r, RP: r, Issuer: rig.Issuer})
+			return "ok"
+		}},
+		{Name: "rp.NewRelyingPartyOAuth+other-options", Kind: "ctor-client", Entry: "rp.NewRelyingPartyOAuth", Variant: true, Run: func(w *World) string {
+			cfg := &oauth2.Config{ClientID: JWTClient, RedirectURL: Redirect, Scopes: strings.Fields(Scopes),
+				Endpoint: oauth2.Endpoint{AuthURL: rig.Issuer + "/authorize", TokenURL: rig.Issuer + "/oauth/token"}}
+			ch := cookieHandler(true)
+			w.n++
+			w.supply(fmt.Sprintf("oauth2.Config#%d", w.n), "oauth2.Config", cfg)
+			w.supply(fmt.Sprintf("CookieHandler#%d", w.n), "httphelper.CookieHandler", ch)
+			r, err := rp.NewRelyingPartyOAuth(cfg, rp.WithPKCE(ch), rp.WithJWTProfile(rp.SignerFromKeyFile(keyFileData("app"))),
+				rp.WithLogger(rig.Discard), rp.WithErrorHandler(func(http.ResponseWriter, *http.Request, string, string, string) {}),
+				rp.WithVerifierOpts(rp.WithIssuedAtOffset(time.Second)))
+			must(err)
+			w.add(&Inst{Kind: "rp", Ref: "rp.NewRelyingPartyOAuth+other-options", Obj: r, RP: r, Issuer: rig.Issuer})
 			return "ok"
 		}},
 	}
@@ -704,69 +1137,60 @@ func buildOps() []Op {
 		n := n
 		if n == "RP0" {
 			ops = append(ops,
-				Op{Name: "rp.CodeExchange(" + n + ")", Kind: "call-client", Entry: "rp.CodeExchange", Run: func(w *World) string {
+				two("rp.CodeExchange("+n+")", "rp.CodeExchange", func(w *World) any {
 					code, _ := w.R.CodeFlow(0, WebID, "u1", Scopes, url.Values{"nonce": nil})
-					tk, err := rp.CodeExchange[*oidc.IDTokenClaims](w.Ctx, code, w.Inst(n).RP)
+					return code
+				}, func(w *World, in any) string {
+					tk, err := rp.CodeExchange[*oidc.IDTokenClaims](w.Ctx, in.(string), w.Inst(n).RP)
 					if err == nil && (tk.IDTokenClaims == nil || tk.IDTokenClaims.Subject != "u1") {
 						return "refused:claims"
 					}
 					return errClass(err)
-				}},
-				Op{Name: "rp.Userinfo(" + n + ")", Kind: "call-client", Entry: "rp.Userinfo", Run: func(w *World) string {
-					t := w.tokens(0)
-					ui, err := rp.Userinfo[*oidc.UserInfo](w.Ctx, t.access, "Bearer", "u1", w.Inst(n).RP)
+				}),
+				two("rp.Userinfo("+n+")", "rp.Userinfo", prepTokens(WebID), func(w *World, in any) string {
+					ui, err := rp.Userinfo[*oidc.UserInfo](w.Ctx, in.(toks).access, "Bearer", "u1", w.Inst(n).RP)
 					if err == nil && ui.Subject != "u1" {
 						return "refused:subject"
 					}
 					return errClass(err)
-				}},
-				Op{Name: "rp.RefreshTokens(" + n + ")", Kind: "call-client", Entry: "rp.RefreshTokens", Run: func(w *World) string {
-					t := w.tokens(0)
-					tk, err := rp.RefreshTokens[*oidc.IDTokenClaims](w.Ctx, w.Inst(n).RP, t.refresh, "", "")
+				}),
+				two("rp.RefreshTokens("+n+")", "rp.RefreshTokens", prepTokens(WebID), func(w *World, in any) string {
+					tk, err := rp.RefreshTokens[*oidc.IDTokenClaims](w.Ctx, w.Inst(n).RP, in.(toks).refresh, "", "")
 					if err == nil && tk.AccessToken == "" {
 						return "refused:no-token"
 					}
 					return errClass(err)
-				}},
-				Op{Name: "rp.ClientCredentials(" + n + ")", Kind: "call-client", Entry: "rp.ClientCredentials", Run: func(w *World) string {
+				}),
+				two("rp.ClientCredentials("+n+")", "rp.ClientCredentials", noPrep, func(w *World, _ any) string {
 					// the web client is not registered for client_credentials: the call is made, the provider refuses
 					_, err := rp.ClientCredentials(w.Ctx, w.Inst(n).RP, nil)
 					if err == nil {
 						return "refused:unexpected-token"
 					}
 					return "ok"
-				}},
+				}),
 				Op{Name: "rp.DeviceAuthorization+DeviceAccessToken(" + n + ")", Kind: "call-client", Entry: "rp.DeviceAuthorization+DeviceAccessToken", Run: func(w *World) string {
-					da, err := rp.DeviceAuthorization(w.Ctx, []string{"openid", "profile"}, w.Inst(n).RP, nil)
-					if err != nil {
-						return errClass(err)
-					}
-					w.harness(func() { err = w.R.Core.ApproveDevice(da.UserCode, "u1") })
-					if err != nil {
-						return errClass(err)
-					}
-					tr, err := rp.DeviceAccessToken(w.Ctx, da.DeviceCode, w.PollInterval, w.Inst(n).RP)
-					if err == nil && tr.AccessToken == "" {
-						return "refused:no-token"
-					}
-					return errClass(err)
+					return w.rpDeviceFlow(n)
 				}},
 			)
 		}
 		ops = append(ops,
-			Op{Name: "rp.EndSession(" + n + ")", Kind: "call-client", Entry: "rp.EndSession", Run: func(w *World) string {
-				t := w.tokens(0)
-				u, err := rp.EndSession(w.Ctx, w.Inst(n).RP, t.id, "https://rp.example/out", "s")
+			two("rp.EndSession("+n+")", "rp.EndSession", prepTokens(WebID), func(w *World, in any) string {
+				u, err := rp.EndSession(w.Ctx, w.Inst(n).RP, in.(toks).id, "https://rp.example/out", "s")
 				if err == nil && (u == nil || u.Host != "rp.example") {
 					return "refused:location"
 				}
 				return errClass(err)
-			}},
-			Op{Name: "rp.RevokeToken(" + n + ")", Kind: "call-client", Entry: "rp.RevokeToken", Run: func(w *World) string {
-				t := w.tokens(0)
-				return errClass(rp.RevokeToken(w.Ctx, w.Inst(n).RP, t.refresh, "refresh_token"))
-			}},
+			}),
+			two("rp.RevokeToken("+n+")", "rp.RevokeToken", prepTokens(WebID), func(w *World, in any) string {
+				return errClass(rp.RevokeToken(w.Ctx, w.Inst(n).RP, in.(toks).refresh, "refresh_token"))
+			}),
 		)
+	}
+	login := func(n, clientID string) Op {
+		return two("rp.AuthURLHandler+CodeExchangeHandler("+n+")", "rp.AuthURLHandler+CodeExchangeHandler",
+			func(w *World) any { return w.loginStart(n, clientID, true) },
+			func(w *World, in any) string { return w.loginCallback(n, in.(loginState)) })
 	}
 	ops = append(ops,
 		// discovery, keys and probes of every provider / LegacyServer the history has constructed
@@ -790,28 +1214,137 @@ func buildOps() []Op {
 			}
 			return "ok"
 		}},
+		// every provider / LegacyServer the history has constructed issues tokens (code flow of the
+		// JWT-access-token client against the instance's own storage): the tenants sign
+		Op{Name: "constructed-providers.code-flow", Kind: "call-provider", Entry: "constructed-providers:authorize+callback+token(code)", Run: func(w *World) string {
+			for _, i := range w.Insts {
+				if (i.Kind != "provider" && i.Kind != "legacy") || i.Name == "P0" || i.Name == "L0" {
+					continue
+				}
+				if _, _, err := w.issue(i); err != "" {
+					return "refused:" + i.Name + " " + err
+				}
+			}
+			return "ok"
+		}},
 		Op{Name: "rp.AuthURLHandler(RP2)", Kind: "call-client", Entry: "rp.AuthURLHandler", Run: func(w *World) string {
-			return w.browserLogin(true)
+			if ls := w.loginStart("RP2", WebID, false); ls.err != "" {
+				return ls.err
+			}
+			return "ok"
 		}},
-		Op{Name: "rp.AuthURLHandler+CodeExchangeHandler(RP2)", Kind: "call-client", Entry: "rp.AuthURLHandler+CodeExchangeHandler", Run: func(w *World) string {
-			return w.browserLogin(false)
-		}},
-		Op{Name: "rs.Introspect(RS0)", Kind: "call-client", Entry: "rs.Introspect", Run: func(w *World) string {
-			t := w.tokens(0)
-			ir, err := rs.Introspect[*oidc.IntrospectionResponse](w.Ctx, w.Inst("RS0").RS, t.access)
+		login("RP2", WebID),
+		login("RP3", JWTClient), // the handler signs the client assertion with the RP's signer; callback = rp.UserinfoCallback
+		two("rs.Introspect(RS0)", "rs.Introspect", prepTokens(WebID), func(w *World, in any) string {
+			ir, err := rs.Introspect[*oidc.IntrospectionResponse](w.Ctx, w.Inst("RS0").RS, in.(toks).access)
 			if err == nil && !ir.Active {
 				return "refused:inactive"
 			}
 			return errClass(err)
-		}},
-		Op{Name: "tokenexchange.ExchangeToken(TE0)", Kind: "call-client", Entry: "tokenexchange.ExchangeToken", Run: func(w *World) string {
-			t := w.tokens(0)
-			r, err := tokenexchange.ExchangeToken(w.Ctx, w.Inst("TE0").TE, t.refresh, oidc.RefreshTokenType, "", "", nil, nil, nil, "")
+		}),
+		two("tokenexchange.ExchangeToken(TE0)", "tokenexchange.ExchangeToken", prepTokens(WebID), func(w *World, in any) string {
+			r, err := tokenexchange.ExchangeToken(w.Ctx, w.Inst("TE0").TE, in.(toks).refresh, oidc.RefreshTokenType, "", "", nil, nil, nil, "")
 			if err == nil && r.AccessToken == "" {
 				return "refused:no-token"
 			}
 			return errClass(err)
+		}),
+		// ---- calls on the instances of the remaining constructors and authentication styles
+		two("tokenexchange.ExchangeToken(TE2:jwt-profile)", "tokenexchange.ExchangeToken(jwt-profile)", prepTokens(JWTClient), func(w *World, in any) string {
+			r, err := tokenexchange.ExchangeToken(w.Ctx, w.Inst("TE2").TE, in.(toks).refresh, oidc.RefreshTokenType, "", "", nil, nil, nil, "")
+			if err == nil && r.AccessToken == "" {
+				return "refused:no-token"
+			}
+			return errClass(err)
+		}),
+		two("rs.Introspect(RS2:jwt-profile)", "rs.Introspect(jwt-profile)", prepTokens(JWTClient), func(w *World, in any) string {
+			ir, err := rs.Introspect[*oidc.IntrospectionResponse](w.Ctx, w.Inst("RS2").RS, in.(toks).access)
+			if err == nil && !ir.Active {
+				return "refused:inactive"
+			}
+			return errClass(err)
+		}),
+		two("profile.TokenSource.Token+TokenCtx(TS0)", "profile.TokenSource.Token", noPrep, func(w *World, _ any) string {
+			ts := w.Inst("TS0").TS
+			t1, err := ts.Token()
+			if err != nil {
+				return errClass(err)
+			}
+			t2, err := ts.TokenCtx(w.Ctx)
+			if err == nil && (t1.AccessToken == "" || t2.AccessToken == "") {
+				return "refused:no-token"
+			}
+			return errClass(err)
+		}),
+		two("client.JWTProfileExchange(RS0 as caller)", "client.JWTProfileExchange", func(w *World) any { return w.assertion(SvcID, w.SvcSigner) },
+			func(w *World, in any) string {
+				// any TokenEndpointCaller will do: the resource server is one
+				t, err := client.JWTProfileExchange(w.Ctx, oidc.NewJWTProfileGrantRequest(in.(string), "openid"), w.Inst("RS0").RS)
+				if err == nil && t.AccessToken == "" {
+					return "refused:no-token"
+				}
+				return errClass(err)
+			}),
+		two("rp.VerifyTokens+KeySet.VerifySignature(KS0)", "rp.VerifyTokens", prepTokens(WebID), func(w *World, in any) string {
+			v := w.Inst("KS0").V
+			t := in.(toks)
+			c, err := rp.VerifyTokens[*oidc.IDTokenClaims](w.Ctx, t.access, t.id, v)
+			if err != nil {
+				return errClass(err)
+			}
+			if c.Subject != "u1" {
+				return "refused:claims"
+			}
+			jws, err := jose.ParseSigned(t.id, []jose.SignatureAlgorithm{jose.ES256})
+			if err != nil {
+				return errClass(err)
+			}
+			_, err = v.KeySet.VerifySignature(w.Ctx, jws)
+			return errClass(err)
+		}),
+		two("rp.CodeExchange+RefreshTokens(RP3:private_key_jwt)", "rp.CodeExchange+RefreshTokens(private_key_jwt)", func(w *World) any {
+			code, _ := w.R.CodeFlow(0, JWTClient, "u1", Scopes, url.Values{"nonce": nil})
+			return code
+		}, func(w *World, in any) string {
+			r := w.Inst("RP3").RP
+			tk, err := rp.CodeExchange[*oidc.IDTokenClaims](w.Ctx, in.(string), r, rp.WithClientAssertionJWT(w.assertion(JWTClient, r.Signer())))
+			if err != nil {
+				return errClass(err)
+			}
+			if tk.IDTokenClaims == nil || tk.IDTokenClaims.Subject != "u1" || tk.RefreshToken == "" {
+				return "refused:claims"
+			}
+			nt, err := rp.RefreshTokens[*oidc.IDTokenClaims](w.Ctx, r, tk.RefreshToken, w.assertion(JWTClient, r.Signer()), oidc.ClientAssertionTypeJWTAssertion)
+			if err == nil && nt.AccessToken == "" {
+				return "refused:no-token"
+			}
+			return errClass(err)
+		}),
+		Op{Name: "rp.DeviceAuthorization+DeviceAccessToken(RP3:private_key_jwt)", Kind: "call-client", Entry: "rp.DeviceAuthorization+DeviceAccessToken(private_key_jwt)", Run: func(w *World) string {
+			return w.rpDeviceFlow("RP3") // the library signs one assertion per request with the RP's signer
 		}},
+		two("rp.CodeExchange+RefreshTokens(RP4:client_secret_post)", "rp.CodeExchange+RefreshTokens(client_secret_post)", func(w *World) any {
+			code, _ := w.R.CodeFlow(0, "post", "u1", Scopes, url.Values{"nonce": nil})
+			return code
+		}, func(w *World, in any) string {
+			r := w.Inst("RP4").RP
+			tk, err := rp.CodeExchange[*oidc.IDTokenClaims](w.Ctx, in.(string), r)
+			if err != nil {
+				return errClass(err)
+			}
+			nt, err := rp.RefreshTokens[*oidc.IDTokenClaims](w.Ctx, r, tk.RefreshToken, "", "")
+			if err == nil && nt.AccessToken == "" {
+				return "refused:no-token"
+			}
+			return errClass(err)
+		}),
+		two("rp.ClientCredentials(RP5:client_secret_basic)", "rp.ClientCredentials(client_secret_basic)", noPrep, func(w *World, _ any) string {
+			t, err := rp.ClientCredentials(w.Ctx, w.Inst("RP5").RP, url.Values{"audience": {"https://api.example"}})
+			if err == nil && t.AccessToken == "" {
+				return "refused:no-token"
+			}
+			return errClass(err)
+		}),
 		Op{Name: "DeviceAuthorizationState.GetAudience", Kind: "getter", Entry: "op.DeviceAuthorizationState.GetAudience", Run: func(w *World) string {
 			da := w.R.Do(0, rig.Req("POST", "/device_authorization", url.Values{"scope": {"openid"}}, webAuth()))
 			if da.Status != 200 {
@@ -889,6 +1422,8 @@ func (w *World) Behaviour(i *Inst) map[string]string {
 			}
 		}
 		out["endpoints:routes"] = strings.Join(routed, " ")
+		// a token this instance issues verifies against THIS instance's keys and carries its issuer
+		out["tokens:self-issued"] = w.selfIssued(i)
 	case "rp":
 		r := i.RP
 		out["endpoints:client"] = strings.Join([]string{r.OAuthConfig().Endpoint.AuthURL, r.OAuthConfig().Endpoint.TokenURL, r.UserinfoEndpoint(),
@@ -898,6 +1433,14 @@ func (w *World) Behaviour(i *Inst) map[string]string {
 		if r.UserinfoEndpoint() != "" {
 			out["redirects:userinfo"] = w.probe(func() { rp.Userinfo[*oidc.UserInfo](w.Ctx, "no-such-token", "Bearer", "u1", r) })
 		}
+		out["redirects:keys"] = w.probe(func() { r.IDTokenVerifier().KeySet.VerifySignature(w.Ctx, unknownKidJWS) })
+	case "ts":
+		out["endpoints:client"] = i.TS.(client.TokenEndpointCaller).TokenEndpoint()
+		out["redirects:discovery"] = w.probe(func() { client.Discover(w.Ctx, rig.Issuer, i.TS.(client.TokenEndpointCaller).HttpClient()) })
+		out["redirects:token"] = w.probe(func() { i.TS.TokenCtx(w.Ctx) })
+	case "ks":
+		out["endpoints:client"] = i.V.Issuer + " " + i.V.ClientID
+		out["redirects:keys"] = w.probe(func() { i.V.KeySet.VerifySignature(w.Ctx, unknownKidJWS) })
 	case "rs":
 		out["endpoints:client"] = i.RS.IntrospectionURL() + " " + i.RS.TokenEndpoint()
 		out["redirects:discovery"] = w.probe(func() { client.Discover(w.Ctx, rig.Issuer, i.RS.HttpClient()) })
@@ -911,6 +1454,14 @@ func (w *World) Behaviour(i *Inst) map[string]string {
 	}
 	return out
 }
+
+// unknownKidJWS carries a key id no provider publishes: a remote key set always has to
+// download for it, whatever it has cached (the probe does not depend on the history).
+var unknownKidJWS = func() *jose.JSONWebSignature {
+	jws, err := jose.ParseSigned(keys.SignCompact(keys.Get("p256c"), jose.ES256, "no-such-kid", []byte(`{"sub":"x"}`)), []jose.SignatureAlgorithm{jose.ES256})
+	must(err)
+	return jws
+}()
 
 // probe runs a library call while every first request is answered with a 302 and
 // reports whether the instance's HTTP client followed it.
